@@ -990,7 +990,7 @@ options! {
 impl Options {
     pub fn verif_zeroed_no_stress() -> std::mem::ManuallyDrop<Options> {
         let mut o: std::mem::ManuallyDrop<Options> =
-            std::mem::ManuallyDrop::new(unsafe { std::mem::zeroed() });
+            std::mem::ManuallyDrop::new(unsafe { std::mem::MaybeUninit::zeroed().assume_init() });
         o.stress_factor.value = DEFAULT_STRESS_FACTOR;
         o.analysis_factor.value = DEFAULT_STRESS_FACTOR;
         o.precise_stress.value = true;
